@@ -156,10 +156,13 @@ def c03_3(ctx: Ctx):
     sp = [g for g in lin.stmts if isinstance(g.node, ast.Assign) and isinstance(g.node.value, ast.Call) and src(g.node.value.func) == "split_block"]
     ok = bool(sp) and isinstance(sp[0].node.targets[0], ast.Tuple) and [src(e) for e in sp[0].node.targets[0].elts][1:] == ["end_block", "added_fallthrough"]
     ctx.check(ok, fi, sp[0].node if sp else fi.node, "(_, end_block, added_fallthrough) = split_block(cache, block, offset)", "split result unpacking changed")
-    # return-edge preparation precedes the split
+    # return-edge preparation happens on the patch CFG, i.e. before that CFG is merged into the IR
+    # (its position relative to the split is C03.15's business: an earlier version of this rule
+    # pinned "before the split", which is exactly defect F34)
     pre = [(g, c) for g, c in lin.all_calls() if src(c.func) in ("_add_return_edges_for_patch_calls", "_update_patch_return_edges_to_match")]
-    ok = len(pre) == 2 and sp and all(g.index < sp[0].index for g, _ in pre)
-    ctx.check(ok, fi, fi.node, "patch call/return edges are prepared before the target block is split", "return-edge preparation moved after the split")
+    merge = [g for g, c in lin.all_calls() if src(c) == "cfg.update(code.cfg)"]
+    ok = len(pre) == 2 and len(merge) == 1 and all(g.index < merge[0].index for g, _ in pre) and all(g.top or lin.under(g, "isinstance(block, gtirb.CodeBlock)") for g, _ in pre)
+    ctx.check(ok, fi, fi.node, "patch call/return edges are prepared (once each) before the patch CFG is merged into the IR", "return-edge preparation missing, conditional or after the merge")
     upr = [(g, c) for g, c in pre if src(c.func) == "_update_patch_return_edges_to_match"]
     ctx.check(len(upr) == 1 and [src(a) for a in upr[0][1].args] == ["cache", "block", "code.cfg", "code.proxies"] and lin.under(upr[0][0], "isinstance(block, gtirb.CodeBlock)"),
               fi, upr[0][1] if upr else fi.node, "_update_patch_return_edges_to_match(cache, block, code.cfg, code.proxies) for code targets", "arguments/guard changed")
